@@ -37,12 +37,18 @@ harnesses! {
         vcover!(x.lo != 0.0 && k > 300, "large exponent reachable");
     }
     #[kani::solver(kissat)] #[kani::unwind(6)] #[kani::stub(crate::arithmetic::fma, fma_fixed)]
-    fn div_zero_numerator() {
-        let y = any_f64!(); let z = any_valid();
-        vassume!(in450(y) && y != 0.0 && in450(z.hi) && z.hi != 0.0);
-        let zero = TwoFloat::from(0.0);
-        let a = zero / y; let b = zero / z; let c = 0.0 / z;
-        vassert!(a.hi == 0.0 && a.lo == 0.0, "0 / f64 == 0");
+    fn div_zero_numerator_f64() {
+        let y = any_f64!();
+        vassume!(in450(y) && y != 0.0);
+        let a = TwoFloat::from(0.0) / y;
+        let mut b = TwoFloat::from(0.0); b /= y;
+        vassert!(a.hi == 0.0 && a.lo == 0.0 && b.hi == 0.0 && b.lo == 0.0, "0 / f64 == 0");
+    }
+    #[kani::solver(kissat)] #[kani::unwind(6)] #[kani::stub(crate::arithmetic::fma, fma_fixed)]
+    fn div_zero_numerator_tf() {
+        let z = any_valid();
+        vassume!(in450(z.hi) && z.hi != 0.0);
+        let b = TwoFloat::from(0.0) / z; let c = 0.0 / z;
         vassert!(b.hi == 0.0 && b.lo == 0.0, "0 / TwoFloat == 0");
         vassert!(c.hi == 0.0 && c.lo == 0.0, "0.0 / TwoFloat == 0");
     }
